@@ -57,6 +57,51 @@ fn check_model(tag: &str, m: &Model, says: &Value, states: &[usize], labels: &[L
     Ok(n)
 }
 
+/// What synthesis is handed for a whole utterance (`Models` over the label table taken as one utterance): per label and state
+/// the duration Gaussian and every stream Gaussian are the words of the PDF the file's trees select for that label and state.
+pub fn check_models(engine: &Engine, says: &Value, labels: &[Label]) -> Result<(), (String, String)> {
+    let m = jbonsai::model::Models::new(labels, &engine.voices, engine.condition.get_interporation_weight());
+    let nstate = vu(&says["nstate"]);
+    let f = |x: f64| ((x as f32) as f64).to_bits();
+    let dur = m.duration();
+    if dur.len() != labels.len() * nstate {
+        return Err(("models:dur:len".into(), format!("{} duration entries for {} labels x {} states", dur.len(), labels.len(), nstate)));
+    }
+    for l in 0..labels.len() {
+        let sel = &says["dur"]["sel"][0][l];
+        let w: Vec<f64> = va(&says["dur"]["pdfs"][vu(&sel[0]) - 2][vu(&sel[1]) - 1]).iter().map(dy).collect();
+        for st in 0..nstate {
+            let d = dur[l * nstate + st];
+            if d.0.to_bits() != f(w[st]) || d.1.to_bits() != f(w[nstate + st]) {
+                return Err(("models:dur".into(), format!("Models::duration label #{} state {}: ({}, {}) but the file's tree selects ({}, {})", l + 1, st + 2, d.0, d.1, w[st], w[nstate + st])));
+            }
+        }
+    }
+    for (s, ss) in va(&says["streams"]).iter().enumerate() {
+        let ms = m.model_stream(s);
+        let has_msd = vb(&ss["msd"]);
+        let got: Vec<(Vec<(f64, f64)>, f64)> = ms.stream.iter().map(|(p, w)| (p.iter().map(|mv| (mv.0, mv.1)).collect(), *w)).collect();
+        if got.len() != labels.len() * nstate {
+            return Err((format!("models:stream{}:len", s), format!("{} entries for {} labels x {} states", got.len(), labels.len(), nstate)));
+        }
+        for l in 0..labels.len() {
+            for st in 0..nstate {
+                let sel = &ss["model"]["sel"][st][l];
+                let w: Vec<f64> = va(&ss["model"]["pdfs"][vu(&sel[0]) - 2][vu(&sel[1]) - 1]).iter().map(dy).collect();
+                let (p, msd) = &got[l * nstate + st];
+                let n = p.len();
+                let ok = w.len() == 2 * n + has_msd as usize
+                    && (0..n).all(|i| p[i].0.to_bits() == f(w[i]) && p[i].1.to_bits() == f(w[n + i]))
+                    && (!has_msd || msd.to_bits() == f(w[2 * n]));
+                if !ok {
+                    return Err((format!("models:stream{}", s), format!("Models::model_stream({}) label #{} state {}: {:?} msd {} but the file's tree selects words {:?}", s, l + 1, st + 2, p, msd, w)));
+                }
+            }
+        }
+    }
+    Ok(())
+}
+
 /// Compare a loaded voice with what the specification says the file contains.
 pub fn check_voice(voice: &Voice, says: &Value, labels: &[Label]) -> Result<usize, (String, String)> {
     let md = &voice.metadata;
@@ -187,6 +232,7 @@ pub fn replay(cases_path: &str, out_path: &str, labels_path: &str) {
             check_engine_defaults(&engine, &case["says"])?;
             // the voice the engine holds (what synthesis will use) is what the file says, too
             check_voice(&engine.voices[0], &case["says"], &labels).map_err(|(k, m)| (format!("engine:{}", k), m))?;
+            check_models(&engine, &case["says"], &labels)?;
             Ok(n)
         });
         std::fs::remove_file(&path).ok();
